@@ -188,6 +188,20 @@ func (p *Parser) initializePackages(filename string) (*packages.Package, error) 
 		Fset: p.fset,
 	}
 
+	// The file this run is about to overwrite is loaded as an empty file of the package:
+	// whatever a previous run left in it (an injector that has since been renamed, a
+	// truncated body) must not take part in type checking the user's sources.
+	if output, err := filepath.Abs(outputFileName(filename)); err == nil {
+		cfg.ParseFile = func(fset *token.FileSet, name string, src []byte) (*ast.File, error) {
+			file, err := parser.ParseFile(fset, name, src, parser.AllErrors|parser.ParseComments)
+			if abs, absErr := filepath.Abs(name); absErr == nil && abs == output && file != nil && file.Name != nil {
+				file.Decls, file.Imports, file.Unresolved, file.Comments = nil, nil, nil, nil
+				return file, nil
+			}
+			return file, err
+		}
+	}
+
 	// Load the specific file and its dependencies
 	pkgs, err := packages.Load(cfg, "file="+filename)
 	if err != nil {
